@@ -45,7 +45,7 @@ fn run<const H: usize>(a: &[String]) -> Option<String> {
     let pathkind = a.get(5).map(String::as_str).unwrap_or("random");
     let dir = tempfile::tempdir().unwrap();
     let path = dir.path().join("seg");
-    let (data, header): (Vec<u8>, Vec<u8>) = if scen == "burst" {
+    let (data, header): (Vec<u8>, Vec<u8>) = if scen == "burst" || scen == "fliplen_v" || scen == "trunc_v" {
         (unhex(&a[6])[..n].to_vec(), unhex(&a[7]))
     } else {
         ((0..n).map(|i| (i as u8).wrapping_mul(37) | 1).collect(), vec![0xA5; H])
@@ -92,6 +92,35 @@ fn run<const H: usize>(a: &[String]) -> Option<String> {
                 }
             }
             None
+        }
+        // the solver's concrete record contents + flipped length bit
+        "fliplen_v" => {
+            let bit: usize = a[8].parse().unwrap();
+            let mut b = orig.clone();
+            b[o as usize + bit / 8] ^= 1 << (bit % 8);
+            put(&b);
+            match read_ok::<H>(&path, pathkind, o, flushed) {
+                Ok(false) => None,
+                Ok(true) => Some(format!("record whose length field had bit {bit} flipped is returned as VALID data ({pathkind}): the CRC over the shorter byte range collides for these contents")),
+                Err(e) => Some(e),
+            }
+        }
+        // the solver's concrete record contents + cut position: everything of the record from `vis` on is zeros
+        "trunc_v" => {
+            let vis: u64 = a[8].parse().unwrap();
+            let mut b = orig.clone();
+            let mut changed = false;
+            for i in (vis as usize)..(o as usize + l) {
+                if b[i] != 0 { changed = true; }
+                b[i] = 0;
+            }
+            if !changed { return None; }
+            put(&b);
+            match read_ok::<H>(&path, pathkind, o, flushed) {
+                Ok(false) => None,
+                Ok(true) => Some(format!("record whose bytes from offset {vis} on were lost (zeros) is returned as VALID data ({pathkind}): CRC-32 collision for these contents")),
+                Err(e) => Some(e),
+            }
         }
         "burst" => {
             let s: usize = a[8].parse().unwrap();
